@@ -709,7 +709,28 @@ func useTemplates() []Tmpl {
 		fn.Post = []*Line{b.line("}")}
 		d3 := &Node{Pre: []*Line{b.line("type " + o2 + " struct{ *" + on + " }")}}
 		d4 := &Node{Pre: []*Line{b.line("type " + o3 + " struct{ *" + opn + " }")}}
-		return []*Node{d1, d2, d3, d4, fn}
+		out := []*Node{d1, d2, d3, d4, fn}
+		if t.Immutable {
+			// an @immutable holder: the embedded type's @mutable marks stay with the promoted fields
+			oi, q := b.d("holderi"), b.v()
+			d5 := &Node{Pre: []*Line{b.line("type " + oi + " struct {")}, Kids: []*Node{b.tstmt("%T", refT(t, SubField))}, Post: []*Line{b.line("}")}}
+			d5.Doc = []string{" " + oi + " embeds an immutable value.", " @immutable"}
+			pi := func(k UseKind, f string) *Use {
+				w := useT(k, t, f)
+				w.Feature = "promoted-field-immutable-holder"
+				w.ImmHolder = true
+				return w
+			}
+			fn.Kids = append(fn.Kids,
+				b.stmt("var "+q+" "+oi),
+				b.stmt(q+".G = 10", pi(UFieldAssign, "G")),
+				b.stmt(q+".MS[0] = 11", pi(UFieldIndexAssign, "MS")),
+				b.stmt(q+".G++", pi(UFieldIncDec, "G")),
+				b.stmt(q+".F = 12", pi(UFieldAssign, "F")),
+			)
+			out = append(out, d5)
+		}
+		return out
 	}})
 	// constants are not variable declarations: an iota group repeats the type implicitly (ValueSpec without type and values)
 	ts = append(ts, Tmpl{Name: "const-iota-group", Cat: CTOR, Kind: "int", Decl: true, Make: func(b *B, t *Type, env *Env) []*Node {
